@@ -122,7 +122,7 @@ def run(prop, tier, replay=None):
         # all histories of length <= 5 over the delta alphabet, for 1 and 2 messages
         for periods in ([3], [-1], [2, 5], [4, -1]):
             d = gen_device(rng, nmsg=len(periods), periods=periods)
-            P = max(p for p in periods if p > 0)
+            P = max([p for p in periods if p > 0] or [1])
             alpha = [0, 1, P - 1, P, P + 1, 2 * P, W - 1]
             hs = []
             for n in range(1, 6):
